@@ -164,3 +164,62 @@ func verifIsValid(r *Rule) bool {
 	c := *r
 	return IsValidRule(&c) == nil
 }
+
+// VerifC13FieldDiff: a reload whose rule differs from the rule in force in exactly ONE field that matters to
+// its strategy puts the new rule in force (the breaker deciding afterwards is bound to the new values); a reload
+// that differs in nothing reports "unchanged". Every field of the base rule is populated so that each edit stays valid.
+func VerifC13FieldDiff() {
+	rt.SetClockMs(10000000)
+	base := &Rule{Resource: "A", Strategy: []Strategy{SlowRequestRatio, ErrorRatio, ErrorCount}[rt.Choice(3)], RetryTimeoutMs: 5, MinRequestAmount: 3,
+		StatIntervalMs: 1000, StatSlidingWindowBucketCount: 2, MaxAllowedRtMs: 20, Threshold: 0.5, ProbeNum: 2}
+	snap := *base
+	if _, err := LoadRules([]*Rule{base}); err != nil {
+		rt.Assert(false, "initial load failed")
+		return
+	}
+	nr := snap
+	d := 1 + rt.U32n("delta", 3)
+	switch rt.Choice(9) {
+	case 0: // no edit at all
+	case 1:
+		nr.Strategy = (nr.Strategy + 1) % 3
+	case 2:
+		nr.RetryTimeoutMs += d
+	case 3:
+		nr.MinRequestAmount += uint64(d)
+	case 4:
+		nr.StatIntervalMs += 1000 * d
+	case 5:
+		nr.StatSlidingWindowBucketCount = []uint32{1, 4, 5}[rt.Choice(3)]
+	case 6:
+		if nr.Strategy != SlowRequestRatio {
+			return // the field is not read by the other strategies
+		}
+		nr.MaxAllowedRtMs += uint64(d)
+	case 7:
+		nr.Threshold = []float64{0.25, 0.75, 1}[rt.Choice(3)]
+	case 8:
+		nr.ProbeNum += uint64(d)
+	}
+	same := nr == snap
+	if !verifIsValid(&nr) {
+		rt.Assert(false, "a single-field edit of the populated base rule stays valid")
+		return
+	}
+	want := nr
+	arg := nr
+	changed := false
+	if rt.Bool("perResource") {
+		changed, _ = LoadRulesOfResource("A", []*Rule{&arg})
+	} else {
+		changed, _ = LoadRules([]*Rule{&arg})
+	}
+	rt.Assert(changed == !same, "a reload reports a change exactly when a field differs")
+	pub, cbs := GetRulesOfResource("A"), getBreakersOfResource("A")
+	rt.Reach("c13.fielddiff")
+	if len(pub) != 1 || len(cbs) != 1 {
+		rt.Assert(false, "one rule and one breaker in force after the reload")
+		return
+	}
+	rt.Assert(pub[0] == want && *cbs[0].BoundRule() == want, "after a reload that edits one field the enforced breaker is bound to the new values")
+}
